@@ -144,11 +144,26 @@ def _src_digest(repo):
     return h.hexdigest()[:20]
 
 
+def _build_tools():
+    """fresh restore: bin/ is not committed; build it once (MANIFEST.setup_cmd), serialised across parallel checks."""
+    import fcntl
+    verif = os.path.dirname(os.path.dirname(os.path.abspath(__file__)))
+    try:
+        with open(os.path.join(verif, ".build.lock"), "w") as lk:
+            fcntl.flock(lk, fcntl.LOCK_EX)
+            if not os.path.exists(IRFACTS) or not os.path.exists(IRSPEC):
+                subprocess.run(["make", "-s", "-C", verif], capture_output=True, text=True)
+    except OSError:
+        pass
+
+
 class Workspace:
     """Scratch directory (outside /repo and /verif) holding IR and facts for one run."""
 
     def __init__(self, repo=REPO):
         self.repo = repo
+        if not os.path.exists(IRFACTS) or not os.path.exists(IRSPEC):
+            _build_tools()
         if not os.path.exists(IRFACTS) or not os.path.exists(IRSPEC):
             raise AnalysisBroken("bin/irfacts or bin/irspec missing: run MANIFEST.setup_cmd (make -C /verif)")
         self.spec_log = []
